@@ -4,7 +4,7 @@ META = {
     "title": "Hash length counters stay exact for very long messages and at word boundaries",
     "design_ref": "6/C17",
     "technique": "Coq proof: counter invariants at the real word widths by induction over the block sequence / over update histories, from any counter value (BLAKE two-word bit counter with manual carry, Groestl u64 block counter and big-endian count field, JH usize byte counter and 64-bit bit length, Skein tweak position), and conformance of the digest continued from such a state; differential correspondence impl = model = spec on states entered through hook H2 next to every boundary and on states reached by really streaming up to the first boundaries",
-    "level_text": "Machine-checked (Props/C17.v + C17_blake.v, C17_groestl.v, C17_jh.v, C17_skein.v, all closed under the global context): C17_blake_t_exact / C17_blake_increase_count_exact (t = bits compressed for every message below 2^64 resp. 2^128 bits, the carry into t.1, no overflow check fires below the limit), C17_blake256_carry_at_2_32 / C17_blake512_carry_at_2_64; C17_groestl_count_exact / C17_groestl_final_count_exact / C17_groestl_count_across_byte_boundaries (counter and all eight count bytes exact below 2^64 blocks), C17_groestl_no_overflow_below_limit, C17_groestl{224,256,384,512}_from_state_eq_spec; C17_jh_len_exact / C17_jh_blocks_exact / C17_jh_digest_conforms (every update history below 2^61 bytes); C17_skein_pos_exact / C17_skein_from_state_eq_spec / C17_skein_beyond_2_64. The digest theorems of C04-C07 are stated with exactly these bounds. Implementation = model = spec is checked on generated cases.",
+    "level_text": "Machine-checked (Props/C17.v + C17_blake.v, C17_groestl.v, C17_jh.v, C17_skein.v, all closed under the global context): C17_blake_t_exact / C17_blake_increase_count_exact (t = bits compressed for every message below 2^64 resp. 2^128 bits, the carry into t.1, no overflow check fires below the limit), C17_blake256_carry_at_2_32 / C17_blake512_carry_at_2_64 (single increase_count steps, helper level), C17_blake{224,256,384,512}_from_state_eq_spec (Proofs/BlakeFromState.v: from ANY chaining value, whole-block counter, buffered prefix and tail the model's digest is Spec.Blake.hash_from - what the hook cases are compared with) and C17_blake*_from_state_no_overflow; C17_groestl_count_exact / C17_groestl_final_count_exact / C17_groestl_count_across_byte_boundaries (counter and all eight count bytes exact below 2^64 blocks), C17_groestl_no_overflow_below_limit, C17_groestl{224,256,384,512}_from_state_eq_spec; C17_jh_len_exact / C17_jh_blocks_exact / C17_jh_digest_conforms (every update history below 2^61 bytes), C17_jh_from_state_eq_spec (Proofs/JHFromState.v: from any 128-byte chaining value and consistent (datalen, buffered) state, any update sequence below 2^61 bytes in total, both profiles: no panic, exact length field, digest = Spec.JH.jh_tail); C17_skein_pos_exact / C17_skein_from_state_eq_spec / C17_skein_beyond_2_64. The digest theorems of C04-C07 are stated with exactly these bounds. Implementation = model = spec is checked on generated cases.",
     "level_note": "Trusted: Coq kernel+VM; spec transcriptions (KAT-anchored); hand-written models tied to the code on generated cases; hook H2 (verif_get_state / verif_set_state: states beyond the first boundary are ENTERED, not reached by hashing; the chaining value of a really streamed state is the implementation's own); harness. No axioms.",
     "rule": "cases = entered states (variant, chaining value, counter, buffered bytes, tail, optional split of the tail over two update calls) with the counter at small offsets around every boundary of the family: BLAKE t at the low-word carry (high word 0 / random / all-ones-but-one), just below the format limit, random block counts; Groestl block_counter at 2^k-d (k = 8,16,24,32,40,48,56,64) x 8 buffered/tail shapes; JH datalen around 0, 64, 2^13, 2^21, 2^29 (= 2^32 bits), 2^32, 2^56, 2^61 and beyond; Skein t.0 at 2^32-j*nb, 2^32, 2^40-nb, 2^63-nb, 2^64-j*nb; plus real_stream cases: 2^29-k bytes (BLAKE-224/256, JH), 2^8/2^16/2^24 blocks minus a few bytes (Groestl), 2^32-k bytes (Skein, release profile) are really streamed in update calls of varying sizes, the counter read back through the hook must equal the proved closed form (direct failure otherwise) and the state becomes an entered state whose tail crosses the boundary; debug and release profile; implementation outcome (ok/panic), counters after the updates where the harness reports them, and the digest are compared with model and spec inside coqc; distinct = distinct case; all cases non-trivial (each runs at least one compression and the padding)",
     "assumptions": ["little-endian x86-64 host; usize is 64 bits",
